@@ -309,6 +309,9 @@ def exec_tree(ctx, case):
                 r = f"a Tree subclass overriding get_ndata: raised {type(e).__name__}: {str(e)[:100]}"
         if r:
             return ctx.violation("other-implementer", f"IsometricResampler({spacing:.6g}): {r}", case)
+        r = G.same_under_ambient(lambda: both(tree), pick=case["tree"]["seed"] // 4)
+        if r:
+            return ctx.violation("ambient-state", f"IsometricResampler({spacing:.6g}): {r}", case)
     if case.get("idempotent_probe") and out.number_of_nodes() < 4000:
         # resampling the resampled tree with the same spacing is again a valid resampling of it
         out3 = rs(out)
